@@ -128,6 +128,13 @@ def run(ctx, report):
 
     # clause 5: control-code dispatch -------------------------------------------
     dispatch_rule(ctx, report)
+    starters = folder.value(CONST, "CUE_STARTING_COMMAND")
+    want = sorted(cea608.CONTROL[k] for k in ("RCL", "RU2", "RU3", "RU4", "RDC"))
+    report.check(sorted(starters) == want, "R-TABLE-REF", ("pycaption/scc/constants.py", "<module>"),
+                 "CUE_STARTING_COMMAND lists exactly the five mode-setting codes RCL RU2 RU3 RU4 RDC (with odd parity)",
+                 {"found": sorted(starters), "required": want,
+                  "why": "a doubled mode-setting code that is not in the list does not arm the de-duplication of doubled "
+                         "extended characters and back-spaces for that mode"}, "5")
 
     # clause 3: layout map
     from . import c05_layout
@@ -137,6 +144,9 @@ def run(ctx, report):
     report.section("doubling memory", doubling_memory, ctx, report, "1")
     from . import c05_doubling
     report.section("doubling automaton", c05_doubling.run, ctx, report, "1")
+    # italic spans are balanced and cover exactly the text sent while italics were on
+    from . import scc_italics
+    report.section("italics pipeline", scc_italics.run, ctx, report, "6", 6 if ctx.tier == "thorough" else 4)
 
     report.not_decided.append(
         "decoder behaviour over command sequences: doubling memory, extended-character back-space, "
